@@ -27,6 +27,8 @@ type muxProp struct {
 	floors      map[string]int // stat -> minimum (quick tier); below => INCONCLUSIVE line
 	extraRun    func(c *media.Case, h *muxrun.History, x *oracle.Ctx)
 	serial      bool
+	// pre runs alone in the process before the parallel histories (measurements of the process itself)
+	pre func(rep *ev.Reporter, tier string, seed int64, stats oracle.Stats)
 }
 
 type caseRef struct {
@@ -73,6 +75,9 @@ func runMuxProp(p *muxProp, tier string, seed int64) int {
 		workers = 1
 	}
 	stats := oracle.Stats{}
+	if p.pre != nil {
+		p.pre(rep, tier, seed, stats)
+	}
 	var mu sync.Mutex
 	sigs := map[string]bool{}
 	var samples []any
@@ -245,6 +250,15 @@ func replayMux(p *muxProp, path string) int {
 		return 2
 	}
 	ref := doc.Replay
+	if ref.Index < 0 && p.pre != nil {
+		rep := ev.NewReporter(p.id)
+		p.pre(rep, ref.Tier, ref.Seed, oracle.Stats{})
+		if rep.NewViolations() > 0 {
+			return 1
+		}
+		fmt.Println("held on this case")
+		return 0
+	}
 	c, opts := p.gen(ref.Seed, ref.Index, ref.Tier)
 	d, _ := json.MarshalIndent(c.Describe(), "", " ")
 	fmt.Println(string(d))
@@ -382,9 +396,10 @@ func init() {
 			}
 			return media.Gen(seed, idx, o), muxrun.Options{Light: true, RoundEvery: 4}
 		},
-		rule:        "(every second case also observed from inside each segment rotation) two thirds long histories (20-80 rotations quick, 100-400 thorough), one third small SegmentMaxSize with payloads straddling the limit; non-trivial = >= 3 published segments",
+		pre:         heapProbe,
+		rule:        "seven histories of 400 (thorough: 3000) rotations run alone in the process with the live heap measured after forced collections; then (every second case also observed from inside each segment rotation) two thirds long histories (20-80 rotations quick, 100-400 thorough), one third small SegmentMaxSize with payloads straddling the limit; non-trivial = >= 3 published segments",
 		assumptions: stdAssumptions(),
-		floors:      map[string]int{"C18.path_counts_checked": 2000, "C18.dir_listings_checked": 500, "C18.expired_probed": 500, "C18.size_limit_hit": 10, "C18.segments_near_limit": 5},
+		floors:      map[string]int{"C18.path_counts_checked": 2000, "C18.dir_listings_checked": 500, "C18.expired_probed": 500, "C18.size_limit_hit": 10, "C18.segments_near_limit": 5, "C18.heap_histories": 7},
 	})
 	regMux(&muxProp{
 		id: "C19", oracle: oracle.C19, quick: 400, thorough: 12000,
